@@ -1507,8 +1507,12 @@ class INSubquery(SQLExpression):
         return [self.item]
 
     def __sqlrepr__(self, db):
-        return "%s %s (%s)" % (sqlrepr(self.item, db),
-                               self.op, sqlrepr(self.subquery, db))
+        item = sqlrepr(self.item, db)
+        s = "%s %s (%s)" % (item, self.op, sqlrepr(self.subquery, db))
+        if item[0] == '(':
+            # SQLOp takes a text that starts with "(" for parenthesised
+            s = '(' + s + ')'
+        return s
 
 
 class NOTINSubquery(INSubquery):
